@@ -102,6 +102,12 @@ CHECKS["C11"] = dict(
     note="Coq kernel+VM; tr_scope.py; oracle and exact rational closed forms trusted; forms sampled; known finding: two different one-point rules in one integral share piecewise values",
     design="DESIGN.md 3 C11")
 
+CHECKS["C10"] = dict(
+    technique="Coq proof: clamping bound for all entries/tolerances (Clamp.v, targets regenerated from the source), diagonal kernel = diagonal of the full tensor for all dof-block lists under FFCx's layouts with the block guard read off the source (Diag.v), tensor-product rule factorisation (SumFact.v); each form compiled under each option and compared with the independent oracle",
+    text="Proved: an element-table entry moves by at most atol+rtol under clamp_table_small_numbers (and not at all for zero tolerances); with the guard found in generate_block_parts the rank-1 kernel equals the diagonal for every list of blocks whose position families are equal or disjoint; flat tensor-rule sum = product of directional sums. Sampled: sum_factorization on/off on tensor-product elements (coefficients, several rules, one-point rules, vector-valued, hex/quad), options on integrals they do not apply to (no rejection, no change), part='diagonal' through the real compile_forms preprocessing (mixed, vector, interior facets, H(div)/H(curl)), zero and coarse table tolerances.",
+    note="Coq kernel; tr_c10.py; oracle trusted as specification; forms sampled; table classification uses default tolerances regardless of the options (noted)",
+    design="DESIGN.md 3 C10")
+
 ALL = [f"C{i:02d}" for i in range(1, 21)]
 
 NOT_YET = "check not built yet in this session (work in progress; see DESIGN.md section 6 for the order of construction)"
